@@ -218,7 +218,11 @@ type memCase struct {
 	LowMark  int64   `json:"low_water_mark"`
 	HighMark int64   `json:"high_water_mark"`
 	Usages   []int64 `json:"usages"`
-	Note     string  `json:"note,omitempty"`
+	// Reload: the rule replaces a predecessor that differs from it in exactly this one field (high-mark | low-mark |
+	// low-thr | high-thr); the envelope in force is the one of the rule loaded last
+	Reload   string `json:"reloaded_with_new,omitempty"`
+	WholeSet bool   `json:"whole_set_reload,omitempty"`
+	Note     string `json:"note,omitempty"`
 }
 
 func measure(res string, limit int) int {
@@ -250,7 +254,42 @@ func measureBig(res string) int64 {
 func runMem(idx int, c *memCase) {
 	caseNo++
 	res := fmt.Sprintf("c11-m-%d", caseNo)
-	if _, err := flow.LoadRulesOfResource(res, []*flow.Rule{{ID: res, Resource: res, TokenCalculateStrategy: flow.MemoryAdaptive, ControlBehavior: flow.Reject,
+	if c.Reload != "" {
+		p := &flow.Rule{ID: res, Resource: res, TokenCalculateStrategy: flow.MemoryAdaptive, ControlBehavior: flow.Reject,
+			LowMemUsageThreshold: c.LowThr, HighMemUsageThreshold: c.HighThr, MemLowWaterMarkBytes: c.LowMark, MemHighWaterMarkBytes: c.HighMark}
+		switch c.Reload {
+		case "high-mark":
+			p.MemHighWaterMarkBytes = c.HighMark*3 + 1000
+		case "low-mark":
+			p.MemLowWaterMarkBytes = c.LowMark/2 + 1
+		case "low-thr":
+			p.LowMemUsageThreshold = c.LowThr + 7
+		case "high-thr":
+			p.HighMemUsageThreshold = (c.HighThr + 1) / 2
+		}
+		// (a predecessor the host's memory size rejects simply makes this a first load)
+		if _, err := flow.LoadRulesOfResource(res, []*flow.Rule{p}); err == nil && len(flow.GetRulesOfResource(res)) == 1 {
+			system_metric.SetSystemMemoryUsage(p.MemLowWaterMarkBytes)
+			measure(res, 3)
+			clk.AddMs(5000)
+			run.Count("memory_reloads", 1)
+		}
+	}
+	if c.WholeSet {
+		all := []*flow.Rule{}
+		for _, r := range flow.GetRules() {
+			if r.Resource != res {
+				x := r
+				all = append(all, &x)
+			}
+		}
+		all = append(all, &flow.Rule{ID: res, Resource: res, TokenCalculateStrategy: flow.MemoryAdaptive, ControlBehavior: flow.Reject,
+			LowMemUsageThreshold: c.LowThr, HighMemUsageThreshold: c.HighThr, MemLowWaterMarkBytes: c.LowMark, MemHighWaterMarkBytes: c.HighMark})
+		if _, err := flow.LoadRules(all); err != nil {
+			run.Violation("C11/memory:load-error", err.Error(), c)
+			return
+		}
+	} else if _, err := flow.LoadRulesOfResource(res, []*flow.Rule{{ID: res, Resource: res, TokenCalculateStrategy: flow.MemoryAdaptive, ControlBehavior: flow.Reject,
 		LowMemUsageThreshold: c.LowThr, HighMemUsageThreshold: c.HighThr, MemLowWaterMarkBytes: c.LowMark, MemHighWaterMarkBytes: c.HighMark}}); err != nil {
 		run.Violation("C11/memory:load-error", err.Error(), c)
 		return
@@ -291,7 +330,7 @@ func runMem(idx int, c *memCase) {
 		prevUsage, prevThr = u, got
 	}
 	run.Count("memory_measurements", int64(len(c.Usages)))
-	run.Distinct(vk.Hash(c.LowThr, c.HighThr, c.LowMark, c.HighMark))
+	run.Distinct(vk.Hash(c.LowThr, c.HighThr, c.LowMark, c.HighMark, c.Reload, c.WholeSet))
 }
 
 // ---- cooperative engine: tc_warm_up.go compiled against the shimmed atomics. After a warm phase and an idle period
@@ -592,6 +631,10 @@ func main() {
 				} else {
 					c.HighMark = c.LowMark + 1
 				}
+			}
+			if rng.Intn(3) == 0 {
+				c.Reload = vk.PickS(rng, "high-mark", "high-mark", "low-mark", "low-thr", "high-thr")
+				c.WholeSet = rng.Intn(2) == 0
 			}
 			u := int64(0)
 			for k := 0; k < 14; k++ {
